@@ -33,8 +33,12 @@ NI static void eviol(struct eres *R, const char *fmt, ...) {
 NI static asn_enc_rval_t direct_encode(int e, asn_TYPE_descriptor_t *td, void *st, asn_app_consume_bytes_f *cb, void *key) {
     switch(e) {
     case 0: return der_encode(td, st, cb, key);
+#ifndef ASN_DISABLE_OER_SUPPORT
     case 1: return oer_encode(td, st, cb, key);
+#endif
+#ifndef ASN_DISABLE_PER_SUPPORT
     case 2: return uper_encode(td, 0, st, cb, key);
+#endif
     case 3: return xer_encode(td, st, XER_F_BASIC, cb, key);
     default: return xer_encode(td, st, XER_F_CANONICAL, cb, key);
     }
@@ -42,14 +46,25 @@ NI static asn_enc_rval_t direct_encode(int e, asn_TYPE_descriptor_t *td, void *s
 NI static asn_enc_rval_t direct_to_buffer(int e, asn_TYPE_descriptor_t *td, void *st, void *b, size_t sz) {
     switch(e) {
     case 0: return der_encode_to_buffer(td, st, b, sz);
+#ifndef ASN_DISABLE_OER_SUPPORT
     case 1: return oer_encode_to_buffer(td, 0, st, b, sz);
-    default: return uper_encode_to_buffer(td, 0, st, b, sz);
+#endif
+#ifndef ASN_DISABLE_PER_SUPPORT
+    case 2: return uper_encode_to_buffer(td, 0, st, b, sz);
+#endif
+    default: { asn_enc_rval_t none = { -1, 0, 0 }; return none; }
     }
 }
 
 NI static void direct_checks(asn_TYPE_descriptor_t *td, void *st, int e, const struct sink *ref, struct eres *R) {
     char lab[128];
     size_t n = ref->n;
+#ifdef ASN_DISABLE_OER_SUPPORT
+    if(e == 1) return;
+#endif
+#ifdef ASN_DISABLE_PER_SUPPORT
+    if(e == 2) return;
+#endif
     /* size accounting and content through the codec's own entry point */
     struct sink d = { 0, 0, 0, 0, -1, -1 };
     snprintf(lab, sizeof lab, "v:%s:direct", SYN[e]); if(cur_label(lab)) return;
